@@ -42,6 +42,7 @@ package hintdetail
 //@   props C10 C19
 //@   ensures err == nil ==> result == nil
 //@   ensures err != nil ==> typeis(result, *withHint) && result.(*withHint).cause == err
+//@   ensures[C19] err != nil ==> result.(*withHint).hint == sprintfN(format, args)
 
 //@ func WithDetail
 //@   props C10 C07 C12 C19
@@ -52,6 +53,7 @@ package hintdetail
 //@   props C10 C19
 //@   ensures err == nil ==> result == nil
 //@   ensures err != nil ==> typeis(result, *withDetail) && result.(*withDetail).cause == err
+//@   ensures[C19] err != nil ==> result.(*withDetail).detail == sprintfN(format, args)
 
 //@ func encodeWithHint
 //@   props C01 C11
